@@ -210,15 +210,19 @@ class Gen:
             return Node("if", test=self.test(), body=body, orelse=orelse)
         if k == "while":
             orelse = []
-            if "loop_else" in self.feats and self.rng.random() < 0.35:
+            if "loop_else" in self.feats and self.rng.random() < (0.7 if in_loop else 0.35):
                 self.used.add("loop_else")
                 orelse = self.suite(depth + 1, in_loop)
+                if in_loop and self.rng.random() < 0.5:      # break / continue of the ENCLOSING loop inside an else clause
+                    orelse = orelse[:-1] + [self.terminator(True)]
             return Node("while", test=self.test(), body=self.suite(depth + 1, True), orelse=orelse)
         self.used.add("for")
         orelse = []
-        if "for_else" in self.feats and self.rng.random() < 0.35:
+        if "for_else" in self.feats and self.rng.random() < (0.7 if in_loop else 0.35):
             self.used.add("for_else")
             orelse = self.suite(depth + 1, in_loop)
+            if in_loop and self.rng.random() < 0.5:
+                orelse = orelse[:-1] + [self.terminator(True)]
         return Node("for", t=self.rng.choice(VARS), iter=Node("it", arg=self.fresh()), body=self.suite(depth + 1, True), orelse=orelse)
 
     def program(self) -> "Program":
@@ -319,12 +323,13 @@ def src_stmts(ss: List[Node], ind: int) -> List[str]:
 
 
 class Program:
-    def __init__(self, body: List[Node], feats: List[str]) -> None:
+    def __init__(self, body: List[Node], feats: List[str], params: Optional[List[str]] = None) -> None:
         self.body = body
         self.feats = feats
+        self.params = list(PARAMS) if params is None else params
 
     def source(self, name: str = "f") -> str:
-        return "def %s(a, b, c):\n%s\n" % (name, "\n".join(src_stmts(self.body, 1)))
+        return "def %s(%s):\n%s\n" % (name, ", ".join(self.params), "\n".join(src_stmts(self.body, 1)))
 
     def table(self) -> Dict[str, Any]:
         """Node table for PySem.tla: N is a sequence of records, ids are 1-based indices."""
@@ -389,7 +394,7 @@ class Program:
             raise ValueError(k)
 
         body = [st(s) for s in self.body]
-        return {"params": PARAMS, "body": body, "N": N}
+        return {"params": self.params, "body": body, "N": N}
 
 
 FEATURES = ["aug", "loop_else", "for", "for_else", "boolop_test", "boolop_value", "boolop_multi", "test_call", "test_not", "test_attr",
@@ -424,3 +429,82 @@ def generate(seed: int, count: int, feats: Optional[Set[str]] = None, max_depth:
 def programs_for_graphs(seed: int, count: int) -> List[str]:
     """Source texts for the restructure-behaviour domain S (graphs built by the AST front end)."""
     return [p.source() for p in generate(seed + 101, count)]
+
+
+# ------------------------------------------------------------------------------------------------------------
+# Size-bounded EXHAUSTIVE generation of control skeletons (DESIGN 6.1): every program with at most `budget`
+# compound statements, nesting <= depth, whose tests are oracle calls and whose statements are call markers.
+def enumerate_control(budget: int = 3, depth: int = 3, with_for: bool = True) -> List["Program"]:
+    counter = [0]
+
+    def mark() -> Node:
+        counter[0] += 1
+        return Node("expr", v=Node("ev", arg=counter[0], args=[]))
+
+    def test() -> Node:
+        counter[0] += 1
+        return Node("t", arg=counter[0])
+
+    def terms(in_loop: bool) -> List[Optional[str]]:
+        return [None, "return"] + (["break", "continue"] if in_loop else [])
+
+    def suites(b: int, d: int, in_loop: bool) -> List[Tuple[Any, int]]:
+        """All suite shapes using at most b compound statements: list of (shape, used)."""
+        out: List[Tuple[Any, int]] = []
+        for term in terms(in_loop):
+            out.append((("S", [], term), 0))
+            if d > 0 and b > 0:
+                for c, u in compounds(b, d, in_loop):
+                    out.append((("S", [c], term), u))
+                    if b - u > 0 and term is None:
+                        for c2, u2 in compounds(b - u, d, in_loop):
+                            out.append((("S", [c, c2], None), u + u2))
+        return out
+
+    def compounds(b: int, d: int, in_loop: bool) -> List[Tuple[Any, int]]:
+        out: List[Tuple[Any, int]] = []
+        kinds = ["if", "while"] + (["for"] if with_for else [])
+        for k in kinds:
+            body_loop = in_loop if k == "if" else True
+            for body, ub in suites(b - 1, d - 1, body_loop):
+                out.append(((k, body, None), 1 + ub))
+                for orelse, uo in suites(b - 1 - ub, d - 1, in_loop):
+                    if orelse[1] == [] and orelse[2] is None:
+                        continue        # an else clause that only marks is covered by the shapes with a terminator
+                    out.append(((k, body, orelse), 1 + ub + uo))
+        return out
+
+    def build_suite(shape: Any) -> List[Node]:
+        _, comps, term = shape
+        out: List[Node] = [mark()]
+        for c in comps:
+            out.append(build_compound(c))
+            out.append(mark())
+        if term == "return":
+            counter[0] += 1
+            out.append(Node("return", v=Node("t", arg=counter[0])))
+        elif term is not None:
+            out.append(Node(term))
+        return out
+
+    def build_compound(c: Any) -> Node:
+        k, body, orelse = c
+        if k == "for":
+            counter[0] += 1
+            it = Node("it", arg=counter[0])
+            return Node("for", t="x", iter=it, body=build_suite(body), orelse=build_suite(orelse) if orelse else [])
+        t = test()
+        return Node(k, test=t, body=build_suite(body), orelse=build_suite(orelse) if orelse else [])
+
+    progs: List[Program] = []
+    for shape, used in suites(budget, depth, False):
+        counter[0] = 0
+        body = build_suite(shape)
+        feats = {"core", "enumerated"}
+        src_probe = Program(body, []).source()
+        if "for " in src_probe:
+            feats.add("for")
+        if "else" in src_probe:
+            feats.add("loop_else")
+        progs.append(Program(body, sorted(feats), params=[]))
+    return progs
